@@ -1401,3 +1401,7 @@ for _p, _r in (("C18", "K14"), ("C11", "H12")):
         B("signed-64-bit-scalars-read-as-unsigned", {_r},
           (H, "      return (T) *(std::int64_t*) mxGetData(array);", "      return (T) *(std::uint64_t*) mxGetData(array);")),
     ]
+TABLE["C12"] += [
+    B("matlab-interface-files-read-without-newline-translation", {"L6"},
+      (MW, "            with open(file, 'r') as f:", "            with open(file, 'r', newline='') as f:")),
+]
